@@ -37,7 +37,7 @@ def rnd_history(rnd, nops):
         k = rnd.random()
         s = lambda: rnd.randint(1, 12)
         if k < 0.15 and nmaps < 4:
-            prog.append({"op": "create", "a": {"kind": rnd.choice(["owned", "owned", "owned", "raw", "raw", "failed_build", "failed_wrap"])}})
+            prog.append({"op": "create", "a": {"kind": rnd.choice(["owned", "owned", "owned", "owned_huge", "raw", "raw", "failed_build", "failed_wrap"])}})
             nmaps += 1
         elif k < 0.27:
             n = rnd.choice([1, 2, 2, 3])
